@@ -94,6 +94,24 @@ InvocPart(z) ==
   {InvocScen(InvPresQ[u[1]], JPxQ[u[2]], ImpQ[u[3]], InvSpQ[u[4]], InvModeQ[u[5]]) :
       u \in {v \in (1..4) \X (1..10) \X (1..3) \X (1..4) \X (1..3) : Sel(v[1] + v[2] + v[3] + v[4] + v[5])}}
 
+(* ---- virt: the main program is given as text (-e / standard input): it   *)
+(* ---- has no directory.  Same trees, -J lists and spellings as "invoc";   *)
+(* ---- the import under test is in the program text itself or in a file    *)
+(* ---- the program reaches by an absolute path or through -J               *)
+VirtImpQ == <<"main", "abs", "jrel">>
+VirtProg(w, stmts) ==
+  IF w = "main" THEN {<<MainPath, Code(0, stmts, <<>>, FALSE)>>}
+  ELSE {<<MainPath, Code(0, <<Stmt("import", IF w = "abs" THEN Abs(ImpPath("sub")) ELSE <<"imp.libsonnet">>, 0)>>, <<>>, FALSE)>>,
+        <<ImpPath(IF w = "abs" THEN "sub" ELSE "L1"), Code(5, stmts, <<>>, FALSE)>>}
+VirtScen(pres, jp, w, sp, k, absj) ==
+  Scen("virt", AFiles(pres) \cup VirtProg(w, <<Stmt(k, sp, 0)>>),
+       [i \in 1..Len(jp) |-> IF absj THEN Abs(jp[i]) ELSE jp[i]] \o <<>>, MainPath)
+VirtSpQ == <<<<A>>, <<".", A>>, <<"sub", "..", A>>, <<"..", "L1", A>>, Abs(L2 \o <<A>>), Abs(LMain \o <<A>>), Abs(LSub \o <<"..", A>>)>>
+VirtPart(z) ==
+  {VirtScen(InvPresQ[u[1]], JPxQ[u[2]], VirtImpQ[u[3]], VirtSpQ[u[4]], KindQ[u[5]], u[6] = 1) :
+      u \in {v \in (1..4) \X (1..10) \X (1..3) \X (1..7) \X (1..3) \X (1..2) :
+                Sel(v[1] + v[2] + v[3] + v[4] + v[5] + v[6])}}
+
 (* ---- pairs: the same file reached twice or three times ------------------ *)
 PairFs(mainHasA) ==
   (IF mainHasA THEN {<<LMain \o <<A>>, Leaf(1)>>} ELSE {})
@@ -287,6 +305,7 @@ Part(m, i) ==
   CASE m = "search" -> SearchPart(m)
     [] m = "special" -> SpecialPart(m)
     [] m = "invoc" -> InvocPart(m)
+    [] m = "virt" -> VirtPart(m)
     [] m = "laws" -> IF i = 1 THEN LawsPartA(m) ELSE LawsPartB(m)
     [] m = "pairs" -> IF i = 1 THEN PairsPartA(m) ELSE IF i = 2 THEN PairsPartB(m) ELSE IF i = 3 THEN PairsPartC(m) ELSE PairsPartD(m)
     [] m = "cycles" -> IF i = 1 THEN {s \in CyclesPart(m) : CyclesOk(s)} ELSE SelfPart(m)
